@@ -85,6 +85,12 @@ pub enum Family {
     /// lengths in the hundreds of millions, large workgroup sizes and override ids. Cost must
     /// follow the size of the text, not the magnitude of its literals.
     Magnitude { bindings: u32, seed: u64 },
+    /// Every dimension at once, in a few hundred compact lines: a chain (fan 1) or diamond (fan 2)
+    /// of `depth` helpers, each reading a global of its own, and `entries` entry points that each
+    /// call into the chain at some level. `callers_first`: helper names sort callers before
+    /// callees (h000 calls h001 ...) or the other way round - an analysis that iterates "until
+    /// nothing changes" in name order needs one round per level in one of the two.
+    EntriesOnChain { depth: u32, entries: u32, fan: u32, callers_first: bool },
     /// Breadth instead of depth: many entry points x many globals x many members x vertex inputs.
     Wide { entries: u32, globals: u32, members: u32, vertex_structs: u32 },
 }
@@ -129,6 +135,8 @@ impl Family {
             Family::Decls { kind: 0, .. } => "override_chain",
             Family::Decls { .. } => "const_chain",
             Family::Wide { .. } => "wide",
+            Family::EntriesOnChain { fan: 1, .. } => "entries_on_chain",
+            Family::EntriesOnChain { .. } => "entries_on_diamond",
         }
     }
 
@@ -139,6 +147,7 @@ impl Family {
             | Family::Dag { depth, .. }
             | Family::Decls { depth, .. }
             | Family::GlobalsGraph { depth, .. }
+            | Family::EntriesOnChain { depth, .. }
             | Family::Types { depth, .. } => *depth,
             Family::Fanout { .. } => 1,
             Family::Flat { .. } => 0,
@@ -157,6 +166,7 @@ impl Family {
             | Family::Dag { depth, .. }
             | Family::Decls { depth, .. }
             | Family::GlobalsGraph { depth, .. }
+            | Family::EntriesOnChain { depth, .. }
             | Family::Types { depth, .. } => *depth = d,
             Family::KernelLib { n } | Family::Shapes { n, .. } | Family::Rejected { n, .. } => *n = d,
             _ => {}
@@ -729,6 +739,37 @@ pub fn source(family: &Family) -> String {
                 );
             }
         }
+        Family::EntriesOnChain { depth, entries, fan, callers_first } => {
+            let depth = (*depth).max(1);
+            // level 0 is the top of the chain, level `depth` the leaf
+            let name = |level: u32| {
+                if *callers_first {
+                    format!("h{level:03}")
+                } else {
+                    format!("h{:03}", depth - level)
+                }
+            };
+            for level in 0..=depth {
+                let _ = writeln!(out, "@group(0) @binding({level}) var<storage, read_write> g{level}: array<f32>;");
+            }
+            for level in (0..=depth).rev() {
+                let mut body = format!("var r = x + g{level}[0];");
+                if level < depth {
+                    for site in 0..(*fan).max(1) {
+                        let _ = write!(body, " r = r + {}(r * {}.5);", name(level + 1), site);
+                    }
+                }
+                let _ = writeln!(out, "fn {}(x: f32) -> f32 {{ {body} return r; }}", name(level));
+            }
+            for e in 0..(*entries).max(1) {
+                let target = name((e * 7) % (depth + 1));
+                match e % 3 {
+                    0 => { let _ = writeln!(out, "@compute @workgroup_size(1) fn e{e:03}() {{ g0[1] = {target}(1.0); }}"); }
+                    1 => { let _ = writeln!(out, "@fragment fn e{e:03}() -> @location(0) vec4<f32> {{ return vec4<f32>({target}(2.0)); }}"); }
+                    _ => { let _ = writeln!(out, "@vertex fn e{e:03}() -> @builtin(position) vec4<f32> {{ return vec4<f32>({target}(3.0)); }}"); }
+                }
+            }
+        }
         Family::Wide { entries, globals, members, vertex_structs } => {
             let _ = writeln!(out, "struct Wm {{");
             for m in 0..(*members).max(1) {
@@ -829,6 +870,18 @@ pub fn token_count(src: &str) -> u64 {
 /// case counts as a violation. Cases on the unchanged tree need 1-40 ms.
 pub const CPU_CASE_CAP_S: u64 = 10;
 pub const CPU_CASE_LIMIT_MS: u64 = 2000;
+/// "A shader of a few hundred lines ... is processed in well under a second": programs of at most
+/// 400 lines get half the limit (the slowest such program on the unchanged tree needs 0.23 s).
+pub const CPU_SMALL_CASE_LIMIT_MS: u64 = 1000;
+pub const SMALL_CASE_LINES: usize = 400;
+
+pub fn cpu_limit_ms(src: &str) -> u64 {
+    if src.lines().count() <= SMALL_CASE_LINES {
+        CPU_SMALL_CASE_LIMIT_MS
+    } else {
+        CPU_CASE_LIMIT_MS
+    }
+}
 /// Address-space cap of a batch process (the unchanged tree peaks at a few hundred MB, most of it
 /// the reserved 256 MB stack of the measuring thread).
 pub const MEMORY_CAP_BYTES: u64 = 6 << 30;
@@ -1057,6 +1110,11 @@ pub fn systematic_families() -> Vec<Family> {
     {
         v.push(Family::Wide { entries, globals, members, vertex_structs });
     }
+    for callers_first in [true, false] {
+        for (depth, entries, fan) in [(8, 6, 1), (32, 40, 1), (64, 160, 1), (64, 40, 2), (48, 90, 2)] {
+            v.push(Family::EntriesOnChain { depth, entries, fan, callers_first });
+        }
+    }
     for n in [8, 75, 150, 300, 400] {
         v.push(Family::KernelLib { n });
     }
@@ -1173,6 +1231,12 @@ pub fn random_family(rng: &mut Rng) -> Family {
             depth: rng.range(1, 64) as u32,
             fan: rng.range(1, 3) as u32,
             kind: rng.below(3) as u8,
+        },
+        9 if rng.chance(300) => Family::EntriesOnChain {
+            depth: rng.range(2, 64) as u32,
+            entries: rng.range(1, 160) as u32,
+            fan: rng.range(1, 2) as u32,
+            callers_first: rng.bool(),
         },
         9 if rng.bool() => Family::Wide {
             entries: rng.range(1, 90) as u32,
@@ -1512,10 +1576,11 @@ pub fn main(tier: Tier) -> i32 {
         if r.measured.outcome.starts_with("harness:") {
             harness_errors.push(format!("case {}: {}", r.index, r.measured.outcome));
         }
-        if !r.measured.exceeded && r.measured.cpu_ms > CPU_CASE_LIMIT_MS {
+        let limit = cpu_limit_ms(&source(&r.family));
+        if !r.measured.exceeded && r.measured.cpu_ms > limit {
             slow.push((r.index, format!(
-                "case {} finished but used {} ms of CPU time (limit {} ms) while passing only {} hook ticks",
-                r.index, r.measured.cpu_ms, CPU_CASE_LIMIT_MS, r.measured.ticks
+                "case {} finished but used {} ms of CPU time (limit {} ms for a program of its size) while passing only {} hook ticks",
+                r.index, r.measured.cpu_ms, limit, r.measured.ticks
             )));
         }
         if !r.measured.exceeded {
@@ -1746,7 +1811,7 @@ pub fn replay(path: &str, doc: &serde_json::Value) -> i32 {
                 let text = String::from_utf8_lossy(&o.stdout);
                 print!("{text}");
                 let cpu: u64 = text.split("cpu_ms=").nth(1).and_then(|t| t.trim().split_whitespace().next().map(|x| x.to_string())).and_then(|x| x.parse().ok()).unwrap_or(0);
-                if cpu > CPU_CASE_LIMIT_MS {
+                if cpu > cpu_limit_ms(src) {
                     println!("REPLAY-EXACT class=cpu_backstop");
                     println!("VIOLATION property=C20 replay={path}");
                     1
